@@ -14,15 +14,19 @@
 //!   04 streaming MessageBuilder sign_text path <-> in-memory path, both directions
 //!   05 Utf8 literal acceptance iff text is canonical, for every chunking
 //!   06 texts padded with 'a' so that they touch the 512-octet window edges of the normalising reader
+//!   6b 1100 / 1600 octet texts with every {a,CR,LF} combination at the octets around TWO window edges (729 texts) and
+//!      8 patterns at each of THREE window edges (512 texts), source in pieces of {any, 512, 511, 513, 1} octets
 //!   08 every octet value b in the texts b, a b, b LF, CR b, CR b LF, b CR LF b, whole and in every split
 //!   07 the same with real Ed25519Legacy (v4) / Ed25519 (v6) keys on the texts of <= 3 octets
 //!   10 tamper matrix (single bit flips in type / pk / hash / hashed area / salt), other key, issuer subpackets,
-//!      version alignment, critical unknown subpackets, issuer fingerprint version
+//!      version alignment, critical unknown subpackets, issuer fingerprint version (1..3 issuer fingerprints in every
+//!      order, unknown subpacket first / middle / last; sign side and verify side)
 //!   20 one-pass header changes, pairing of two signatures
 //!   30 certifications (4 version combinations), subkey bindings and back signatures
 //!   40 v6 salt sizes per hash with a v6 RSA key
 //!   50 v6 primary with v4 subkey is refused on the public and the secret import path
 //!   60 fingerprints / key ids / issuer subpackets / PKESK recipient fields
+//!   63 hand-built v2/v3 RSA keys with moduli of 5..128 octets: key id = low 64 bits of n (left-padded), fingerprint = MD5(n ++ e)
 //!   61 every issuer subpacket of every signature key S makes over key E (16 combinations) names S; 62 the same for
 //!      key generation, detached and message builder signatures
 //! usage: c02_bounded <N> [replay-case-hex]
@@ -214,6 +218,26 @@ impl Read for Chunked {
         } else {
             chunk.drain(..n);
         }
+        Ok(n)
+    }
+}
+
+/// hands out `data` in pieces of `size` octets (0 = everything the caller asks for)
+#[derive(Debug)]
+struct Pieces<'a> {
+    data: &'a [u8],
+    pos: usize,
+    size: usize,
+}
+
+impl Read for Pieces<'_> {
+    fn read(&mut self, buf: &mut [u8]) -> std::io::Result<usize> {
+        let mut n = (self.data.len() - self.pos).min(buf.len());
+        if self.size > 0 {
+            n = n.min(self.size);
+        }
+        buf[..n].copy_from_slice(&self.data[self.pos..self.pos + n]);
+        self.pos += n;
         Ok(n)
     }
 }
@@ -671,6 +695,53 @@ fn text_families(t: &mut Tally, n: usize, k4: &SignedSecretKey, k6: &SignedSecre
             }
         }
     }
+    // 6b: lone CRs / line endings at TWO and THREE consecutive 512-octet window edges of the normalising reader
+    {
+        let letters = [b'a', b'\r', b'\n'];
+        let mut family: Vec<(u8, u32, Vec<u8>)> = vec![];
+        // 1100 octets: the six positions 510,511,512,1022,1023,1024 take every combination of {a,CR,LF}
+        for code in 0..729u32 {
+            let mut text = vec![b'a'; 1100];
+            let mut c = code;
+            for p in [510usize, 511, 512, 1022, 1023, 1024] {
+                text[p] = letters[(c % 3) as usize];
+                c /= 3;
+            }
+            family.push((0, code, text));
+        }
+        // 1600 octets: each of the triples at 510.., 1022.., 1534.. from 8 patterns (8^3 = 512 texts)
+        let triples: [&[u8; 3]; 8] = [b"aaa", b"a\ra", b"a\r\n", b"\r\ra", b"\n\ra", b"a\na", b"aa\r", b"\r\na"];
+        for code in 0..512u32 {
+            let mut text = vec![b'a'; 1600];
+            for (i, base) in [510usize, 1022, 1534].into_iter().enumerate() {
+                text[base..base + 3].copy_from_slice(triples[((code >> (3 * i)) & 7) as usize]);
+            }
+            family.push((1, code, text));
+        }
+        for (shape, code, text) in &family {
+            for size in [0usize, 512, 511, 513, 1] {
+                for (vi, dk) in [(4u8, &dk4), (6u8, &dk6)] {
+                    let id = format!("6b{vi:02x}{shape:02x}{code:04x}{size:04x}");
+                    t.case(&id, &|| format!("v{vi} text signature over {} octets of 'a' with {} / {} / {} at offsets 510.., 1022.., 1534.., source delivered in pieces of {} octets", text.len(), show(&text[510..513]), show(&text[1022..1025]), if text.len() > 1537 { show(&text[1534..1537]) } else { "-".into() }, if size == 0 { "any number of".to_string() } else { size.to_string() }), || {
+                        dk.take();
+                        let ds = e2s(DetachedSignature::sign_text_data(ChaCha20Rng::seed_from_u64(11), dk, &Password::empty(), HashAlgorithm::Sha256, Pieces { data: text, pos: 0, size }), "C06 sign_text_data", "sign")?;
+                        let d_sign = dk.take().ok_or("(C06) signer not called")?;
+                        let w = sig_wire(&ds.signature)?;
+                        let want = indep_digest(&w, &canon(text)).ok_or("hash")?;
+                        ensure!(d_sign == want, "(C11/C14 sign side) digest handed to the signer {} differs from the RFC digest {} over canon(text)", hx(&d_sign[..4]), hx(&want[..4]));
+                        // one-shot verification over the slice and over the same piece schedule
+                        let r = ds.verify(dk, text);
+                        let d_ver = dk.take();
+                        ensure!(r.is_ok() && d_ver.as_deref() == Some(&want[..]), "(C06/C14 verify side) DetachedSignature::verify over the very same text: ok = {}, verify side hashed to {}, RFC digest over canon(text) is {}", r.is_ok(), d_ver.map(|d| hx(&d[..4])).unwrap_or_else(|| "(nothing)".into()), hx(&want[..4]));
+                        let r = ds.signature.verify(dk, Pieces { data: text, pos: 0, size });
+                        let d_ver = dk.take();
+                        ensure!(r.is_ok() && d_ver.as_deref() == Some(&want[..]), "(C06/C14 verify side) Signature::verify over the same text in the same pieces: ok = {}, verify side hashed to {}, RFC digest over canon(text) is {}", r.is_ok(), d_ver.map(|d| hx(&d[..4])).unwrap_or_else(|| "(nothing)".into()), hx(&want[..4]));
+                        Ok(true)
+                    });
+                }
+            }
+        }
+    }
     // 08: every octet value next to line endings, one piece and every split (binary-safe APIs)
     for b in 0..=255u8 {
         let shapes: [Vec<u8>; 6] = [vec![b], vec![b'a', b], vec![b, b'\n'], vec![b'\r', b], vec![b'\r', b, b'\n'], vec![b, b'\r', b'\n', b]];
@@ -964,6 +1035,77 @@ fn sig_families(t: &mut Tally, k4: &SignedSecretKey, k4b: &SignedSecretKey, k6: 
             ensure!(sig.verify(pk, DOC).is_err(), "(C15 issuer fingerprint version) accepted a hashed issuer fingerprint of another version");
             Ok(true)
         });
+    }
+
+    // 1006: two and three hashed Issuer Fingerprint subpackets in every order of {own version, other version};
+    // 1007: an unknown (critical / non-critical) subpacket first / in the middle / last among known ones
+    for (vi, k, _kb) in keys {
+        let pk = k.primary_key.public_key();
+        let foreign = if vi == 4 { k6.primary_key.public_key() } else { k4.primary_key.public_key() };
+        for len in [2usize, 3] {
+            for mask in 0u32..1 << len {
+                let id = format!("1006{vi:02x}{len:02x}{mask:02x}");
+                let seq: Vec<bool> = (0..len).map(|i| mask & (1 << i) != 0).collect(); // true = other version
+                t.case(&id, &|| format!("v{vi} signature whose hashed area holds the issuer fingerprints {:?} (own = v{vi} signer, other = fingerprint of the other key version)", seq.iter().map(|o| if *o { "other" } else { "own" }).collect::<Vec<_>>()), || {
+                    let any_other = seq.iter().any(|o| *o);
+                    let mut hashed = vec![ctime()];
+                    hashed.extend(seq.iter().map(|o| if *o { issuer_fp(foreign) } else { issuer_fp(pk) }));
+                    // sign side: SignatureConfig::sign and the detached API
+                    let mut cfg = config_for(pk, SignatureType::Binary, hash_of(pk), 16);
+                    cfg.hashed_subpackets = hashed.clone();
+                    let r = cfg.sign(&k.primary_key, &Password::empty(), DOC);
+                    ensure!(r.is_err() == any_other, "(C15 issuer fingerprint version, sign) SignatureConfig::sign {} a v{vi} signature whose hashed issuer fingerprints are {:?}", if r.is_ok() { "made" } else { "refused" }, seq);
+                    if let Ok(sig) = r {
+                        e2s(sig.verify(pk, DOC), "C06", "signature with several own issuer fingerprints")?;
+                    }
+                    let r = DetachedSignature::sign_binary_data_with_subpackets(ChaCha20Rng::seed_from_u64(16), &k.primary_key, &Password::empty(), hash_of(pk), DOC, SubpacketConfig::UserDefined { hashed: hashed.clone(), unhashed: vec![] });
+                    ensure!(r.is_err() == any_other, "(C15 issuer fingerprint version, sign) sign_binary_data_with_subpackets {} a v{vi} signature whose hashed issuer fingerprints are {:?}", if r.is_ok() { "made" } else { "refused" }, seq);
+                    // verify side: hand-made from the oracle digest, as parsed from the wire
+                    let mut cfg = config_for(pk, SignatureType::Binary, hash_of(pk), 17);
+                    cfg.hashed_subpackets = hashed;
+                    let sig = craft(&k.primary_key, cfg, None, DOC)?;
+                    let sig = parse_sig(&sig.to_bytes().map_err(|e| e.to_string())?).ok_or("hand-made signature does not parse")?;
+                    let r = sig.verify(pk, DOC);
+                    if any_other {
+                        ensure!(r.is_err(), "(C15 issuer fingerprint version, verify) accepted a v{vi} signature whose hashed issuer fingerprints are {:?} (true = other key version)", seq);
+                    } else {
+                        e2s(r, "C11 hand-made", "signature with several own issuer fingerprints rejected")?;
+                    }
+                    Ok(true)
+                });
+            }
+        }
+        for styp in [101u8, 60u8] {
+            for pos in 0..3usize {
+                for critical in [false, true] {
+                    let id = format!("1007{vi:02x}{styp:02x}{pos:02x}{:02x}", critical as u8);
+                    t.case(&id, &|| format!("v{vi} signature with a {} subpacket of unknown type {styp} at position {pos} among [creation time, issuer fingerprint]", if critical { "critical" } else { "non-critical" }), || {
+                        let data = if styp == 60 { SubpacketData::Other(styp, vec![0xab, 0xcd].into()) } else { SubpacketData::Experimental(styp, vec![0xab, 0xcd].into()) };
+                        let unknown = e2s(if critical { Subpacket::critical(data) } else { Subpacket::regular(data) }, "C06", "subpacket")?;
+                        let mut hashed = vec![ctime(), issuer_fp(pk)];
+                        hashed.insert(pos, unknown);
+                        let mut cfg = config_for(pk, SignatureType::Binary, hash_of(pk), 18);
+                        cfg.hashed_subpackets = hashed.clone();
+                        let r = cfg.sign(&k.primary_key, &Password::empty(), DOC);
+                        ensure!(r.is_err() == critical, "(C15 critical, sign) SignatureConfig::sign {} a signature with this hashed area", if r.is_ok() { "made" } else { "refused" });
+                        if let Ok(sig) = r {
+                            e2s(sig.verify(pk, DOC), "C06 unknown subpacket", "own signature with a non-critical unknown subpacket")?;
+                        }
+                        let mut cfg = config_for(pk, SignatureType::Binary, hash_of(pk), 19);
+                        cfg.hashed_subpackets = hashed;
+                        let sig = craft(&k.primary_key, cfg, None, DOC)?;
+                        let sig = parse_sig(&sig.to_bytes().map_err(|e| e.to_string())?).ok_or("hand-made signature does not parse")?;
+                        let r = sig.verify(pk, DOC);
+                        if critical {
+                            ensure!(r.is_err(), "(C15 critical, verify) accepted a signature with an unknown critical subpacket (type {styp}) at position {pos} of the hashed area");
+                        } else {
+                            e2s(r, "C06 unknown subpacket", "valid signature with a non-critical unknown subpacket rejected")?;
+                        }
+                        Ok(true)
+                    });
+                }
+            }
+        }
     }
 
     // ------------------------------------------------------------ 20: one-pass header, pairing
@@ -1308,6 +1450,7 @@ fn sig_families2(t: &mut Tally, k4: &SignedSecretKey, k4b: &SignedSecretKey, k6:
         });
     }
     issuer_families(t, &all);
+    old_rsa_family(t);
     salt_family(t);
 }
 
@@ -1477,6 +1620,107 @@ fn issuer_families(t: &mut Tally, all: &[(u8, &SignedSecretKey); 4]) {
             ensure!(found == 2, "(C06 issuer) message carries {found} signatures instead of 2");
             Ok(true)
         });
+    }
+}
+
+// ------------------------------------------------------------ 63: v2 / v3 RSA keys built by hand
+fn md5(input: &[u8]) -> [u8; 16] {
+    const S: [u32; 64] = [7, 12, 17, 22, 7, 12, 17, 22, 7, 12, 17, 22, 7, 12, 17, 22, 5, 9, 14, 20, 5, 9, 14, 20, 5, 9, 14, 20, 5, 9, 14, 20, 4, 11, 16, 23, 4, 11, 16, 23, 4, 11, 16, 23, 4, 11, 16, 23, 6, 10, 15, 21, 6, 10, 15, 21, 6, 10, 15, 21, 6, 10, 15, 21];
+    let k: Vec<u32> = (0..64).map(|i| ((i as f64 + 1.0).sin().abs() * 4294967296.0) as u32).collect();
+    let mut msg = input.to_vec();
+    msg.push(0x80);
+    while msg.len() % 64 != 56 {
+        msg.push(0);
+    }
+    msg.extend(((input.len() as u64) * 8).to_le_bytes());
+    let (mut a0, mut b0, mut c0, mut d0) = (0x67452301u32, 0xefcdab89u32, 0x98badcfeu32, 0x10325476u32);
+    for chunk in msg.chunks(64) {
+        let m: Vec<u32> = chunk.chunks(4).map(|w| u32::from_le_bytes([w[0], w[1], w[2], w[3]])).collect();
+        let (mut a, mut b, mut c, mut d) = (a0, b0, c0, d0);
+        for i in 0..64 {
+            let (f, g) = match i / 16 {
+                0 => ((b & c) | (!b & d), i),
+                1 => ((d & b) | (!d & c), (5 * i + 1) % 16),
+                2 => (b ^ c ^ d, (3 * i + 5) % 16),
+                _ => (c ^ (b | !d), (7 * i) % 16),
+            };
+            let f2 = f.wrapping_add(a).wrapping_add(k[i]).wrapping_add(m[g]);
+            a = d;
+            d = c;
+            c = b;
+            b = b.wrapping_add(f2.rotate_left(S[i]));
+        }
+        a0 = a0.wrapping_add(a);
+        b0 = b0.wrapping_add(b);
+        c0 = c0.wrapping_add(c);
+        d0 = d0.wrapping_add(d);
+    }
+    let mut out = [0u8; 16];
+    for (i, w) in [a0, b0, c0, d0].iter().enumerate() {
+        out[4 * i..4 * i + 4].copy_from_slice(&w.to_le_bytes());
+    }
+    out
+}
+
+fn old_rsa_family(t: &mut Tally) {
+    fn mpi(out: &mut Vec<u8>, v: &[u8]) {
+        let bits = v.len() * 8 - v[0].leading_zeros() as usize;
+        out.extend((bits as u16).to_be_bytes());
+        out.extend_from_slice(v);
+    }
+    fn parse_key(bytes: &[u8]) -> Option<PublicKey> {
+        match PacketParser::new(bytes).next() {
+            Some(Ok(Packet::PublicKey(k))) => Some(k),
+            _ => None,
+        }
+    }
+    let e = [0x01u8, 0x00, 0x01];
+    for version in [3u8, 2u8] {
+        for len in [5usize, 6, 7, 8, 9, 16, 128] {
+            let id = format!("63{version:02x}{len:02x}");
+            let n: Vec<u8> = (0..len).map(|i| if i == 0 { 0xc1 } else if i == len - 1 { 0x57 } else { (i as u8).wrapping_mul(0x3b).wrapping_add(0x23) }).collect();
+            t.case(&id, &|| format!("hand-built v{version} RSA public key with a {len} octet modulus {}.. (e = 65537)", hx(&n[..5])), || {
+                let mut body = vec![version];
+                body.extend(0x3b9a_ca00u32.to_be_bytes());
+                body.extend(0u16.to_be_bytes());
+                body.push(1);
+                mpi(&mut body, &n);
+                mpi(&mut body, &e);
+                let mut packet = vec![0x99];
+                packet.extend((body.len() as u16).to_be_bytes());
+                packet.extend_from_slice(&body);
+                let Some(key) = parse_key(&packet) else {
+                    ensure!(version == 2, "(C06 import) a v3 RSA public key with a {len} octet modulus does not parse");
+                    return Ok(false);
+                };
+                let mut wide = vec![0u8; 8];
+                wide.extend_from_slice(&n);
+                let want_id = wide[wide.len() - 8..].to_vec();
+                let kid = key.legacy_key_id();
+                ensure!(kid.as_ref() == &want_id[..], "(C13 v3 key id) legacy_key_id() {} is not the low 64 bits of the modulus, left-padded with zeros: {}", hx(kid.as_ref()), hx(&want_id));
+                let mut ne = n.clone();
+                ne.extend_from_slice(&e);
+                let want_fp = md5(&ne);
+                let fp = key.fingerprint();
+                ensure!(fp.as_bytes() == &want_fp[..], "(C13 v3 fingerprint) fingerprint {} is not MD5(modulus ++ exponent) = {}", hx(fp.as_bytes()), hx(&want_fp));
+                // stable across write + read
+                let mut again = vec![];
+                key.to_writer_with_header(&mut again).map_err(|e| e.to_string())?;
+                let back = parse_key(&again).ok_or("(C06 import) own v3 key does not re-parse")?;
+                ensure!(back.legacy_key_id() == kid && back.fingerprint() == fp, "(C13 v3 key id) identity changes across write + read");
+                // a v3 PKESK addressed to the RFC key id is for this key, one addressed to another id is not
+                for (own, idb) in [(true, want_id.clone()), (false, { let mut o = want_id.clone(); o[0] ^= 0x80; o })] {
+                    let mut pb = vec![3u8];
+                    pb.extend_from_slice(&idb);
+                    pb.push(1);
+                    pb.extend_from_slice(&[0x00, 0x08, 0xab]);
+                    let pkt = packet_bytes(1, &pb);
+                    let Some(Ok(Packet::PublicKeyEncryptedSessionKey(p))) = PacketParser::new(&pkt[..]).next() else { return Err("(C06) hand-built v3 PKESK does not parse".into()) };
+                    ensure!(p.match_identity(&key) == own, "(C13 pkesk) v3 PKESK addressed to key id {} : match_identity = {} (the key's RFC key id is {})", hx(&idb), p.match_identity(&key), hx(&want_id));
+                }
+                Ok(true)
+            });
+        }
     }
 }
 
